@@ -2958,6 +2958,10 @@ impl<'a, R: FileManager> FrontendCtx<'a, R> {
             RuntypeKind::AnyOf(vs) => {
                 let mut acc = vec![];
                 for v in vs {
+                    // `never` adds nothing to a union
+                    if matches!(v.kind, RuntypeKind::Never) {
+                        continue;
+                    }
                     let item = self.runtype_to_tpl_lit(span, v, file_name.clone())?;
                     acc.push(item);
                 }
